@@ -3,7 +3,9 @@ package vuego
 import (
 	"bytes"
 	"fmt"
+	"io"
 	"io/fs"
+	"time"
 
 	"golang.org/x/net/html"
 	yaml "gopkg.in/yaml.v3"
@@ -77,6 +79,38 @@ func (l *Loader) LoadFragment(filename string) ([]*html.Node, error) {
 		return nil, err
 	}
 	return parser.ParseTemplateBytes(templateBytes)
+}
+
+// loadFragmentStat is loadFragment for the template cache: it opens the file once and returns,
+// besides front-matter and template bytes, the modification time reported by that same open
+// file (ok is false if the open file cannot be examined).
+func (l *Loader) loadFragmentStat(filename string) (map[string]any, []byte, time.Time, bool, error) {
+	if l.FS == nil {
+		return nil, nil, time.Time{}, false, fmt.Errorf("error reading %s: no filesystem configured", filename)
+	}
+	f, err := l.FS.Open(filename)
+	if err != nil {
+		return nil, nil, time.Time{}, false, fmt.Errorf("error reading %s: %w", filename, err)
+	}
+	defer f.Close()
+
+	var modTime time.Time
+	statOK := false
+	if info, err := f.Stat(); err == nil {
+		modTime = info.ModTime()
+		statOK = true
+	}
+
+	template, err := io.ReadAll(f)
+	if err != nil {
+		return nil, nil, time.Time{}, false, fmt.Errorf("error reading %s: %w", filename, err)
+	}
+
+	frontMatter, templateContent, err := extractFrontMatter(template)
+	if err != nil {
+		return nil, nil, time.Time{}, false, err
+	}
+	return frontMatter, templateContent, modTime, statOK, nil
 }
 
 // loadFragment loads a template file and extracts front-matter, returning the raw template bytes.
